@@ -20,6 +20,8 @@ type Entry struct {
 	Rel  string `json:"rel"`
 	Size int64  `json:"size"`
 	Dir  bool   `json:"dir,omitempty"`
+	// ZeroCS > 0: every odd block of ZeroCS bytes of the file is zero
+	ZeroCS int64 `json:"zero_cs,omitempty"`
 }
 
 // Tree is a generated source tree. Content of every file is a function of
@@ -31,7 +33,8 @@ type Tree struct {
 	Entries []Entry `json:"entries"`
 }
 
-// FillContent fills buf with the content of file rel at offset off.
+// FillContent fills buf with the pseudo-random content of file rel at offset
+// off (unique per (seed, name, offset)).
 func FillContent(seed uint64, rel string, off int64, buf []byte) {
 	key := Mix(seed ^ HashStr(rel))
 	var w [8]byte
@@ -43,6 +46,32 @@ func FillContent(seed uint64, rel string, off int64, buf []byte) {
 		n := copy(buf[i:], w[start:])
 		i += n
 	}
+}
+
+// Fill fills buf with the content of entry e at offset off: FillContent, and
+// for entries with ZeroCS > 0 every odd block of ZeroCS bytes is zero, so that
+// a transfer with that chunk size carries chunks that are entirely zero
+// (content-dependent shortcuts of an endpoint - sparse writes, deduplication -
+// become visible).
+func (t Tree) Fill(e Entry, off int64, buf []byte) {
+	FillContent(t.Seed, e.Rel, off, buf)
+	if e.ZeroCS > 0 {
+		for i := range buf {
+			if ((off+int64(i))/e.ZeroCS)%2 == 1 {
+				buf[i] = 0
+			}
+		}
+	}
+}
+
+// EntryByRel returns the entry with the given relative path.
+func (t Tree) EntryByRel(rel string) (Entry, bool) {
+	for _, e := range t.Entries {
+		if e.Rel == rel {
+			return e, true
+		}
+	}
+	return Entry{}, false
 }
 
 // Materialize writes the tree under root (root is created).
@@ -62,7 +91,7 @@ func (t Tree) Materialize(root string) error {
 			return err
 		}
 		buf := make([]byte, e.Size)
-		FillContent(t.Seed, e.Rel, 0, buf)
+		t.Fill(e, 0, buf)
 		if err := os.WriteFile(p, buf, 0644); err != nil {
 			return err
 		}
@@ -204,6 +233,11 @@ func GenTree(seed uint64, shape, names string, cs int64, maxBytes int64) Tree {
 		rel := comp + "/" + comp + "/" + comp + "/" + comp + "/" + strings.Repeat("q", 1024-4*201-40)
 		t.Entries = append(t.Entries, Entry{Rel: rel, Size: capSize(cs + 1)})
 	}
+	for i := range t.Entries {
+		if en := &t.Entries[i]; !en.Dir && cs > 0 && en.Size > cs && shape != "manytiny" && r.Intn(3) == 0 {
+			en.ZeroCS = cs
+		}
+	}
 	sort.Slice(t.Entries, func(i, j int) bool { return t.Entries[i].Rel < t.Entries[j].Rel })
 	return t
 }
@@ -278,7 +312,7 @@ func ExpectedDigest(t Tree, prefix string) map[string]DigestEntry {
 			continue
 		}
 		buf := make([]byte, e.Size)
-		FillContent(t.Seed, e.Rel, 0, buf)
+		t.Fill(e, 0, buf)
 		s := sha256.Sum256(buf)
 		out[rel] = DigestEntry{Kind: "file", Size: e.Size, Sum: hex.EncodeToString(s[:12])}
 	}
